@@ -1044,3 +1044,40 @@ async fn rebroadcast_pointed_at_a_live_output_is_refused() {
         result, node_aborted, new_output.block_id, new_output.tx_ordinal, new_still_unspent, old_still_listed, victim_spendable, 2 * amount
     )); }
 }
+
+/// C09/C18 (wire): every entry of a served lite block — carried transaction or placeholder, merged or not — has the same
+/// hash after the block crossed the wire as it had when the block was generated (a placeholder's hash travels in the first
+/// half of its signature field; the encoded bytes re-encode identically)
+#[test]
+fn lite_block_entries_keep_their_hash_across_the_wire() {
+    let mut rng = Rng::from_env();
+    let keys: Vec<SaitoPublicKey> = (0..4).map(|i| [i as u8 + 1; 33]).collect();
+    for round in 0..200 {
+        let mut b = Block::new();
+        b.id = 5; b.timestamp = rng.next(); b.previous_block_hash = rng.arr(); b.creator = rng.arr(); b.signature = rng.arr(); b.hash = rng.arr();
+        let n = 1 + rng.below(12) as usize;
+        for i in 0..n {
+            let mut tx = Transaction::default();
+            tx.timestamp = i as u64; tx.signature = rng.arr();
+            let mut s = Slip::default(); s.public_key = keys[rng.below(4) as usize]; s.amount = 1 + rng.below(9); tx.from.push(s);
+            let mut o = Slip::default(); o.public_key = keys[rng.below(4) as usize]; o.amount = 1; tx.to.push(o);
+            tx.generate_hash_for_signature();
+            b.transactions.push(tx);
+        }
+        b.merkle_root = b.generate_merkle_root(false, false);
+        let watch: Vec<SaitoPublicKey> = keys.iter().filter(|_| rng.below(3) == 0).cloned().collect();
+        let lite = b.generate_lite_block(watch.clone());
+        let bytes = lite.serialize_for_net(BlockType::Full);
+        let mut received = match Block::deserialize_from_net(&bytes) { Ok(r) => r, Err(e) => witness(format!("round {}: a served lite block does not decode: {:?}", round, e)) };
+        if received.transactions.len() != lite.transactions.len() { witness(format!("round {}: {} entries sent, {} received", round, lite.transactions.len(), received.transactions.len())); }
+        for (k, tx) in received.transactions.iter_mut().enumerate() {
+            tx.generate_hash_for_signature();
+            if tx.hash_for_signature != lite.transactions[k].hash_for_signature {
+                witness(format!("round {}: full block of {} transactions, {} watched keys: entry {} of the lite block ({:?}, stands for {} transaction(s)) has hash {} when generated and {} after crossing the wire",
+                    round, n, watch.len(), k, lite.transactions[k].transaction_type, lite.transactions[k].txs_replacements,
+                    hex::encode(&lite.transactions[k].hash_for_signature.unwrap()[0..6]), hex::encode(&tx.hash_for_signature.unwrap()[0..6])));
+            }
+        }
+        if received.serialize_for_net(BlockType::Full) != bytes { witness(format!("round {}: a received lite block re-encodes to different bytes", round)); }
+    }
+}
